@@ -925,7 +925,8 @@ func (a *Agent) gatherCandidatesSrflx(ctx context.Context, urls []*stun.URI, net
 			if closeErr := c.close(); closeErr != nil {
 				a.log.Warnf("Failed to close candidate: %v", closeErr)
 			}
-			a.log.Warnf("Failed to append to localCandidates and run onCandidateHdlr: %v", err)
+			// The candidate was never started, so closing it does not release the socket.
+			closeConnAndLog(conn, a.log, "Failed to append to localCandidates and run onCandidateHdlr: %v", err)
 		}
 	}
 
